@@ -20,7 +20,7 @@ import (
 // C17 — name and number trees are faithful, ordered dictionaries.
 
 func init() {
-	addRun("C17", "key sets for name trees (random bytes, shared prefixes, prefix chains, empty key, non-ASCII, long keys) and number trees (dense, sparse, negative, int64 extremes) of sizes 0..10000 crossing 64 and 4096 (quick: up to 4097 once, mostly <= 600), written with Write/WriteMap, values of six object kinds; probes: present keys (incl. leaf boundaries), absent keys between neighbours, below the minimum, above the maximum; plus unsorted/duplicate sequences; every size class also written while a stream is open on the pdf.Writer (all Puts queued until the stream closes, with and without other queued objects), then every present key looked up. A case is non-trivial when it has at least two keys; distinct by kind, key sequence and probes.", runC17)
+	addRun("C17", "key sets for name trees (random bytes, shared prefixes, prefix chains, empty key, non-ASCII, long keys) and number trees (dense, sparse, negative, int64 extremes) of sizes 0..10000 crossing 64 and 4096 (quick: up to 4097 once, mostly <= 600), written with Write/WriteMap, values of six object kinds; probes: present keys (incl. leaf boundaries), absent keys between neighbours, below the minimum, above the maximum; plus unsorted/duplicate sequences; every size class also written while a stream is open on the pdf.Writer (all Puts queued until the stream closes, with and without other queued objects), then every present key looked up; a fixed corpus of keys a text decoder would alter (byte-order marks FE FF / FF FE / EF BB BF, UTF-16 text together with the text it spells, NUL, PDFDocEncoding specials 18-1F 7F-9F AD, parentheses, backslash, line ends, every single byte) and a generator mode for them; on every tree one FromFile object serves Lookups and a nested All() while its All() is suspended, and two of its iterators advance alternately. A case is non-trivial when it has at least two keys; distinct by kind, key sequence and probes.", runC17)
 	addReplay("C17", "tree", replayC17)
 }
 
@@ -570,6 +570,11 @@ func trsRunCase[K cmp.Ordered](api *trsTreeAPI[K], tc *trsTreeCase[K]) (implLine
 	}
 	as := enum("FromFile", stream)
 	am := enum("InMemory", mem)
+	trsInterleave(api, stream, mem, want, idx, tc, fail)
+	// and once more plainly: the interleaved calls must not have left anything behind
+	if as2 := enum("FromFile (after interleaved calls)", stream); as2 != as {
+		fail("interleave-all", "All() after interleaved calls: %s, before: %s", as2, as)
+	}
 	if rootObj != nil {
 		n, err := api.size(rd, rootObj)
 		if err != nil || n != len(want) {
@@ -645,11 +650,286 @@ func replayC17(input string) (bool, string) {
 	return true, "tree written and read back: " + truncate(line)
 }
 
+// ---- keys that a text-string decoder would not leave alone ----
+
+// trsCodecBytes: NUL, the PDFDocEncoding code points without a plain Latin-1 meaning,
+// soft hyphen, string delimiters, line ends.
+var trsCodecBytes = func() []byte {
+	b := []byte{0x00, 0xad, '(', ')', '\\', '\r', '\n', 0xfe, 0xff, 0xef}
+	for c := 0x18; c <= 0x1f; c++ {
+		b = append(b, byte(c))
+	}
+	for c := 0x7f; c <= 0x9f; c++ {
+		b = append(b, byte(c))
+	}
+	return b
+}()
+
+func trsUTF16(s string, bigEndian bool) string {
+	var b []byte
+	for i := 0; i < len(s); i++ {
+		if bigEndian {
+			b = append(b, 0, s[i])
+		} else {
+			b = append(b, s[i], 0)
+		}
+	}
+	return string(b)
+}
+
+var trsCodecKeys = []string{
+	"\xfe\xff", "\xff\xfe", "\xef\xbb\xbf", "\xfe", "\xff", "\xef\xbb",
+	"\xfe\xff\x00A", "\xff\xfeA\x00", "\xef\xbb\xbfA", "A",
+	"\xfe\xff\x00A\x00B", "\xff\xfeA\x00B\x00", "\xef\xbb\xbfAB", "AB",
+	"\xfe\xff\x00", "\xfe\xff\xd8\x00", "\xfe\xff\xd8\x00\xdc\x00", "\xfe\xff\x00\x1b\x00e\x00n\x00\x1b\x00A",
+	"\xfe\xff\xfe\xff", "\xfe\xff\xfe\xff\x00A", "\xef\xbb\xbf\xef\xbb\xbf",
+	"\x00", "\x00\x00", "A\x00", "\x00A", "\x00A\x00B", "A\x00B",
+	"(", ")", "\\", "()", "(()", "())", "\\(", "\\)", "a(b", "a)b", "a\\b", "\\\\", "\\n", "\\053",
+	"\r", "\n", "\r\n", "a\rb", "a\nb", "a\r\nb", "\t", " ", "a b",
+	"\xad", "A\xad", "\xc3\xa9", "\xe9", "\x80", "\xa0",
+}
+
+// trsCodecVariants: other byte strings that a decoder treating keys as text would identify
+// with k (or that k would be identified with).
+func trsCodecVariants(k pdf.Name) []pdf.Name {
+	s := string(k)
+	out := []pdf.Name{pdf.Name("\xef\xbb\xbf" + s)}
+	ascii := true
+	for i := 0; i < len(s); i++ {
+		if s[i] >= 0x80 {
+			ascii = false
+		}
+	}
+	if ascii {
+		out = append(out, pdf.Name("\xfe\xff"+trsUTF16(s, true)), pdf.Name("\xff\xfe"+trsUTF16(s, false)))
+	}
+	dec16 := func(b string, bigEndian bool) (string, bool) {
+		if len(b)%2 != 0 {
+			return "", false
+		}
+		var o []byte
+		for i := 0; i+1 < len(b); i += 2 {
+			hi, lo := b[i], b[i+1]
+			if !bigEndian {
+				hi, lo = lo, hi
+			}
+			if hi != 0 {
+				return "", false
+			}
+			o = append(o, lo)
+		}
+		return string(o), true
+	}
+	switch {
+	case strings.HasPrefix(s, "\xfe\xff"):
+		if d, ok := dec16(s[2:], true); ok {
+			out = append(out, pdf.Name(d))
+		}
+		out = append(out, pdf.Name(s[2:]))
+	case strings.HasPrefix(s, "\xff\xfe"):
+		if d, ok := dec16(s[2:], false); ok {
+			out = append(out, pdf.Name(d))
+		}
+		out = append(out, pdf.Name(s[2:]))
+	case strings.HasPrefix(s, "\xef\xbb\xbf"):
+		out = append(out, pdf.Name(s[3:]))
+	}
+	return out
+}
+
+func trsSortedNames(ss []string) []pdf.Name {
+	set := map[string]bool{}
+	for _, x := range ss {
+		set[x] = true
+	}
+	var u []string
+	for x := range set {
+		u = append(u, x)
+	}
+	sort.Strings(u)
+	out := make([]pdf.Name, len(u))
+	for i, x := range u {
+		out[i] = pdf.Name(x)
+	}
+	return out
+}
+
+// trsCodecCorpus: key sets of the fixed corpus.  (0) every special key together with the
+// keys it could be confused with; (1) only the marked/encoded forms (the plain forms are
+// probed and must be absent); (2) only the plain forms (the encoded ones are probed);
+// (3) one key per byte value and per special byte as first/last byte.
+func trsCodecCorpus() (sets [][]pdf.Name, probes [][]pdf.Name) {
+	all := append([]string(nil), trsCodecKeys...)
+	for _, c := range trsCodecBytes {
+		all = append(all, string([]byte{c}), "k"+string([]byte{c}), string([]byte{c})+"k")
+	}
+	var enc, plain []string
+	for _, w := range []string{"A", "AB", "key1", "", "(", "x\\y", "Name One"} {
+		plain = append(plain, w)
+		enc = append(enc, "\xfe\xff"+trsUTF16(w, true), "\xff\xfe"+trsUTF16(w, false), "\xef\xbb\xbf"+w)
+	}
+	var bytesAll []string
+	for c := 0; c < 256; c++ {
+		bytesAll = append(bytesAll, string([]byte{byte(c)}))
+	}
+	raw := [][]string{append(append(append([]string(nil), all...), enc...), plain...), enc, plain, bytesAll}
+	for _, ss := range raw {
+		keys := trsSortedNames(ss)
+		var pr []pdf.Name
+		pr = append(pr, keys...)
+		for _, k := range keys {
+			pr = append(pr, trsCodecVariants(k)...)
+		}
+		for _, x := range all {
+			pr = append(pr, pdf.Name(x))
+		}
+		sets = append(sets, keys)
+		probes = append(probes, pr)
+	}
+	return
+}
+
+// ---- one reader object used by interleaved calls ----
+
+// trsInterleave: while an All() enumeration of the streaming reader is suspended inside its
+// yield, the same object serves Lookups (keys in earlier, the current and later leaves, absent
+// keys) and a nested All(); two iterators over the same object advance alternately.  The outer
+// enumeration must still yield every entry once, in order.
+func trsInterleave[K cmp.Ordered](api *trsTreeAPI[K], stream, mem trsTreeReader[K], want []K, idx map[K]int, tc *trsTreeCase[K], fail func(key, format string, a ...any)) {
+	n := len(want)
+	if n == 0 {
+		return
+	}
+	at := map[int]bool{0: true, n - 1: true, n / 2: true, n / 3: true}
+	for _, p := range []int{1, 62, 63, 64, 65, 127, 128, 4095, 4096, 4097, n - 2, n - 64, n - 65} {
+		if p >= 0 && p < n {
+			at[p] = true
+		}
+	}
+	var absent []K
+	for _, p := range tc.probes {
+		if _, ok := idx[p]; !ok && len(absent) < 4 {
+			absent = append(absent, p)
+		}
+	}
+	checkLookup := func(where string, k K) {
+		v, err := stream.Lookup(k)
+		if i, present := idx[k]; present {
+			if err != nil || !pdf.Equal(v, trsVal(i, tc.style)) {
+				fail("interleave-lookup", "Lookup(%s) %s = %v, %v; want %v", api.tok(k), where, v, err, trsVal(i, tc.style))
+			}
+		} else if !errors.Is(err, nametree.ErrKeyNotFound) {
+			fail("interleave-lookup", "Lookup(%s) of an absent key %s = %v, %v", api.tok(k), where, v, err)
+		}
+	}
+	i := 0
+	bad := false
+	for k, v := range stream.All() {
+		if !bad && (i >= n || k != want[i] || !pdf.Equal(v, trsVal(idx[k], tc.style))) {
+			fail("interleave-all", "All() with interleaved calls: entry %d is %s = %v (want key %s)", i, api.tok(k), v, api.tok(want[min(i, n-1)]))
+			bad = true
+		}
+		if at[i] && i < n {
+			where := fmt.Sprintf("during All() at entry %d of %d", i, n)
+			for _, j := range []int{i, 0, i / 2, i - 64, i - 1, i + 1, i + 64, i + 70, n - 1, (i + n) / 2} {
+				if j >= 0 && j < n {
+					checkLookup(where, want[j])
+				}
+			}
+			for _, a := range absent {
+				checkLookup(where, a)
+			}
+			// a nested enumeration on the same object, complete or abandoned half-way
+			stop := -1
+			if i%3 == 1 {
+				stop = n / 2
+			}
+			j := 0
+			for k2 := range stream.All() {
+				if j >= n || k2 != want[j] {
+					fail("interleave-nested", "nested All() %s: entry %d is %s", where, j, api.tok(k2))
+					break
+				}
+				j++
+				if j == stop {
+					break
+				}
+			}
+			if stop < 0 && j != n || stop >= 0 && j != max(stop, 1) && j != n {
+				fail("interleave-nested", "nested All() %s gave %d entries, want %d", where, j, n)
+			}
+		}
+		i++
+	}
+	if i != n && !bad {
+		fail("interleave-all", "All() with interleaved calls gave %d entries, want %d", i, n)
+	}
+
+	// two (three) iterators over one object, advanced alternately; the in-memory reader alongside
+	next1, stop1 := iter.Pull2(stream.All())
+	next2, stop2 := iter.Pull2(stream.All())
+	next3, stop3 := iter.Pull2(mem.All())
+	defer stop1()
+	defer stop2()
+	defer stop3()
+	i1, i2 := 0, 0
+	step := func(name string, next func() (K, pdf.Object, bool), pos *int) {
+		k, v, ok := next()
+		if !ok {
+			if *pos != n {
+				fail("interleave-all", "iterator %s ended after %d of %d entries", name, *pos, n)
+				*pos = n
+			}
+			return
+		}
+		if *pos >= n || k != want[*pos] || !pdf.Equal(v, trsVal(idx[k], tc.style)) {
+			fail("interleave-all", "iterator %s: entry %d is %s = %v", name, *pos, api.tok(k), v)
+		}
+		*pos++
+	}
+	i3 := 0
+	for round := 0; (i1 < n || i2 < n) && round < 3*n+10; round++ {
+		switch round % 5 {
+		case 0, 3:
+			if i1 < n {
+				step("A", next1, &i1)
+			}
+		case 1:
+			if i2 < n {
+				step("B", next2, &i2)
+			}
+			if i3 < n {
+				step("InMemory", next3, &i3)
+			}
+		case 2:
+			if i2 < n {
+				step("B", next2, &i2)
+				if i2 < n {
+					step("B", next2, &i2)
+				}
+			}
+		default:
+			if i1 < n && round%7 == 4 {
+				checkLookup("between two iterators", want[i1])
+			}
+			if i1 < n {
+				step("A", next1, &i1)
+			}
+		}
+	}
+	if _, _, ok := next1(); ok || i1 != n {
+		fail("interleave-all", "iterator A: %d entries, then more=%v; want %d", i1, ok, n)
+	}
+	if _, _, ok := next2(); ok || i2 != n {
+		fail("interleave-all", "iterator B: %d entries, then more=%v; want %d", i2, ok, n)
+	}
+}
+
 // ---- generators ----
 
 func trsGenNames(r *Rand, n int) []pdf.Name {
 	set := make(map[string]struct{}, n)
-	mode := r.Intn(6)
+	mode := r.Intn(7)
 	prefix := string(genBytes(r, 6))
 	small := []byte{0x00, 0xff, 0x7f, 0x80, 'a', 'b'}
 	tries := 0
@@ -680,6 +960,27 @@ func trsGenNames(r *Rand, n int) []pdf.Name {
 			}
 		case 4: // long keys with a long shared prefix
 			b = append(bytes.Repeat([]byte{'P'}, 20+r.Intn(3)), r.Bytes(1+r.Intn(3))...)
+		case 5: // keys a text-string decoder would change: byte-order marks, UTF-16 text next to
+			// the text it spells, NUL, PDFDocEncoding specials, string delimiters
+			word := Pick(r, []string{"A", "B", "AB", "a", "key", "", "Z9", "(", "\\"}) + strconv.Itoa(r.Intn(n+3))
+			switch r.Intn(8) {
+			case 0:
+				b = []byte(word)
+			case 1:
+				b = []byte("\xfe\xff" + trsUTF16(word, true))
+			case 2:
+				b = []byte("\xff\xfe" + trsUTF16(word, false))
+			case 3:
+				b = []byte("\xef\xbb\xbf" + word)
+			case 4:
+				b = append([]byte(Pick(r, trsCodecKeys)), r.Bytes(r.Intn(3))...)
+			case 5:
+				b = []byte(trsUTF16(word, true)) // NUL bytes, no BOM
+			case 6:
+				b = append([]byte(word), Pick(r, trsCodecBytes))
+			default:
+				b = append([]byte{Pick(r, trsCodecBytes)}, []byte(word)...)
+			}
 		default: // mixture
 			if r.Bool() {
 				b = r.Bytes(r.Intn(3))
@@ -795,6 +1096,9 @@ func trsNameProbes(r *Rand, keys []pdf.Name, nRandom int) []pdf.Name {
 			b[len(b)-1]++
 			out = append(out, pdf.Name(b))
 		}
+		if r.P(1, 3) {
+			out = append(out, trsCodecVariants(k)...)
+		}
 	}
 	if len(keys) > 0 {
 		hi := keys[len(keys)-1]
@@ -871,6 +1175,40 @@ func runC17(c *Ctx) {
 		nProbe = 30
 	}
 
+	record := func(n int, tag string, useMap bool, stream int, enc, opLine, line string, fails []trsFail) {
+		if line == "skip" {
+			return
+		}
+		c.Case(enc, n >= 2)
+		c.Stat("kind_" + tag)
+		switch {
+		case n == 0:
+			c.Stat("size_0")
+		case n < 64:
+			c.Stat("size_1..63")
+		case n <= 4096:
+			c.Stat("size_64..4096")
+		default:
+			c.Stat("size_>4096")
+		}
+		if useMap {
+			c.Stat("WriteMap")
+		}
+		switch stream {
+		case 1:
+			c.Stat("written_while_stream_open")
+		case 2:
+			c.Stat("written_while_stream_open_with_other_queued_objects")
+		}
+		for _, f := range fails {
+			c.Violate("tree", f.key, f.desc, enc)
+		}
+		c.Emit(opLine, line)
+		if n > 0 && n < 6 {
+			c.Sample(opLine + " => " + line)
+		}
+	}
+
 	// kind: 0 name tree, 1 number tree, <0 random; stream: see trsTreeCase, <0 mostly plain;
 	// allKeys: probe every present key
 	oneK := func(n int, tag string, kind, stream int, allKeys bool) {
@@ -918,40 +1256,25 @@ func runC17(c *Ctx) {
 			opLine = "TRS nt num " + trsToks(&trsNumAPI, keys) + " " + trsToks(&trsNumAPI, probes)
 			c.Stat("numtree")
 		}
-		if line == "skip" {
-			return
-		}
-		c.Case(enc, n >= 2)
-		c.Stat("kind_" + tag)
-		switch {
-		case n == 0:
-			c.Stat("size_0")
-		case n < 64:
-			c.Stat("size_1..63")
-		case n <= 4096:
-			c.Stat("size_64..4096")
-		default:
-			c.Stat("size_>4096")
-		}
-		if useMap {
-			c.Stat("WriteMap")
-		}
-		switch stream {
-		case 1:
-			c.Stat("written_while_stream_open")
-		case 2:
-			c.Stat("written_while_stream_open_with_other_queued_objects")
-		}
-		for _, f := range fails {
-			c.Violate("tree", f.key, f.desc, enc)
-		}
-		c.Emit(opLine, line)
-		if n > 0 && n < 6 {
-			c.Sample(opLine + " => " + line)
-		}
+		record(n, tag, useMap, stream, enc, opLine, line, fails)
 	}
 
 	one := func(n int, tag string) { oneK(n, tag, -1, -1, false) }
+
+	// fixed corpus: keys that a decoder treating keys as text strings would change or identify
+	// with each other (byte-order marks, UTF-16 text next to the text it spells, NUL,
+	// PDFDocEncoding specials, delimiters); every key is looked up, the variants are probed
+	cSets, cProbes := trsCodecCorpus()
+	for i, keys := range cSets {
+		for stream := 0; stream < 2; stream++ {
+			tc := &trsTreeCase[pdf.Name]{keys, cProbes[i], i % 2, stream == 0 && i%2 == 1, stream}
+			enc := trsEncodeCase(&trsNameAPI, tc)
+			line, fails := trsRunCase(&trsNameAPI, tc)
+			opLine := "TRS nt name " + trsToks(&trsNameAPI, keys) + " " + trsToks(&trsNameAPI, cProbes[i])
+			c.Stat("nametree")
+			record(len(keys), "codec-corpus", tc.useMap, stream, enc, opLine, line, fails)
+		}
+	}
 
 	// the tree written plainly and while a stream is open on the pdf.Writer: every Put of a
 	// node is then only queued and serialised when the stream closes, so anything the tree
